@@ -265,9 +265,8 @@ class Cache:
         ):
             return "window function in `filter`"
 
-        if isinstance(node, verbs.Filter) and any(
-            self.cols[uid].ftype() == Ftype.WINDOW for uid in self.uuid_to_name.keys()
-        ):
+        # Hidden columns count, too: they can still be referenced and are inlined then.
+        if isinstance(node, verbs.Filter) and any(col.ftype() == Ftype.WINDOW for col in self.cols.values()):
             return "filter on a table containing window function expression"
 
         if isinstance(node, verbs.Summarize):
@@ -291,7 +290,7 @@ class Cache:
             ):
                 return "left / full join with a table containing a constant column"
 
-            if any(self.cols[uid].ftype() == Ftype.WINDOW for uid in self.uuid_to_name.keys()):
+            if any(col.ftype() == Ftype.WINDOW for col in self.cols.values()):
                 return "join with a table containing window function expression"
 
             if any(
